@@ -287,6 +287,7 @@ class SimKernel(object):
         self.last_cmd = None
         self.read_chunk = read_chunk
         self.ready_rng = ready_rng
+        self.stop_reports = []      # pids of children stopped by SIGSTOP and not yet reported to a WUNTRACED wait
         self.ready_p = 0.8
         self.programs = {p['name']: p for p in programs}
         # ---- the real options object, configured by hand (no config file, no daemonisation)
@@ -458,6 +459,14 @@ class SimKernel(object):
 
     def waitpid(self, pid, flags):
         self.fault('waitpid')
+        if flags & getattr(_os, 'WUNTRACED', 2) and self.stop_reports:
+            # only with WUNTRACED: a stopped (not exited) child is reported, once, with a "stopped" wait status
+            z = self.stop_reports.pop(0)
+            c = self.children.get(z)
+            if c is not None and c.state == 'alive':
+                sts = (int(signal.SIGSTOP) << 8) | 0x7f
+                self.rec('wait', pid=z, sts=sts, foreign=False, stopped=True)
+                return z, sts
         if self.zombie_order:
             z = self.zombie_order.pop(0)
             c = self.children.get(z) if z not in self.foreign else None
@@ -508,6 +517,15 @@ class SimKernel(object):
             r['result'] = 'esrch'
             raise OSError(errno.ESRCH, 'no such process')
         r['result'] = 'ok'
+        if c.state == 'alive' and sig in (signal.SIGSTOP, signal.SIGTSTP):
+            # job-control stop: the child stays alive; waitpid reports it only to a caller that asks with WUNTRACED
+            if not getattr(c, 'stopped', False):
+                c.stopped = True
+                self.stop_reports.append(c.pid)
+            return
+        if c.state == 'alive' and sig == signal.SIGCONT:
+            c.stopped = False
+            return
         if c.state == 'alive' and sig != 0 and (c.dies_on is None or sig in c.dies_on) and sig not in (signal.SIGUSR1, signal.SIGUSR2, signal.SIGCHLD, signal.SIGWINCH if hasattr(signal, 'SIGWINCH') else -1):
             if self.programs.get(c.name, {}).get('die_delay', 0) == 0:
                 self.make_zombie(c.pid, sig)
